@@ -23,7 +23,9 @@ ASSUMPTIONS = ["true 64-bit hash collisions between different ids are not reacha
 
 IDS = ["a", "b", "ab", "bc", "abc", "a1", "1", "A", "B", ""]
 BOUNDS = [(0, 1), (0, 1), (0, 1), (0, 3), (1, 2), (0, 0), (-1, 1), (-1, 2), (-2, 3), (-1, 3), (0, 4), (1, 1), (0, 2), (2, 1 + 1),
-          (-2, 2), (1, 3), (-1, 0)]
+          (-2, 2), (1, 3), (-1, 0),
+          # bounds that differ only BEYOND the 16-bit default range of integer variables (stock levels, capacities, big-M)
+          (0, 40000), (0, 50000), (0, 32767), (0, 32768), (-32768, 32767), (-100000, 32767)]
 KINDS = ["AtLeast", "AtLeast", "All", "Any", "AtMost", "Xor", "Imply", "XNor", "Not"]
 
 
@@ -326,6 +328,9 @@ def check_complete(case, ev):
         raise Violation(f"errors() returns nothing but the model is not well-defined: {why}")
     ids = [x.id for x in oracle.walk(m)]
     distinct = len(set(ids)) == len(ids)
+    if case.get("tree") and errs:
+        # the WRITTEN model is a tree with pairwise distinct ids by construction (whatever the built objects report as their ids)
+        raise Violation(f"tree-shaped model with pairwise distinct ids is rejected by errors(): {[str(e) for e in errs]}")
     if ok and errs:
         kind = "tree-shaped model with pairwise distinct ids" if distinct else "model that merely shares identical sub-propositions"
         raise Violation(f"{kind} is rejected by errors(): {[str(e) for e in errs]}")
@@ -337,8 +342,13 @@ def check_complete(case, ev):
 @st.composite
 def tree(draw, tier):
     """every leaf used once, explicit ids unique -> pairwise distinct ids (derived connectives excluded: they duplicate children)"""
-    leaves = [{"k": "leaf", "id": i, "b": list(draw(st.sampled_from(BOUNDS)))} for i in
-              ["a", "b", "c", "d", "e", "f", "g", "h", "i", "j", "k", "l"]]
+    # pairwise DISTINCT ids - also when they only differ in case, surrounding blanks or unicode composition
+    leaf_ids = ["a", "b", "c", "d", "e", "f", "g", "h", "i", "j", "k", "l"]
+    comp_ids = ["T%d" % j for j in range(1, 40)]
+    if draw(st.integers(0, 2)) == 0:
+        leaf_ids = list(draw(st.permutations(["a", "a ", " a", "A", "a\t", "\u00e5", "a\u030a", "b", "b ", "c", "d", "e"])))
+        comp_ids = list(draw(st.permutations(["grp", "grp ", " grp", "Grp", "grp\n", "U1", "U1 ", "U2"]))) + comp_ids
+    leaves = [{"k": "leaf", "id": i, "b": list(draw(st.sampled_from(BOUNDS)))} for i in leaf_ids]
     counter = [0]
 
     def node(depth):
@@ -353,14 +363,43 @@ def tree(draw, tier):
         if not ch:
             ch.append({"k": "leaf", "id": "z%d" % counter[0], "b": [0, 1]})
         counter[0] += 1
-        nd = {"k": kind, "c": ch, "id": ("T%d" % counter[0]) if draw(st.booleans()) else None}
+        nd = {"k": kind, "c": ch, "id": comp_ids[counter[0] - 1] if draw(st.booleans()) else None}
         if kind == "AtLeast":
             nd["v"] = draw(st.integers(-2, 4))
             nd["s"] = draw(st.sampled_from([1, -1, None]))
         elif kind == "AtMost":
             nd["v"] = draw(st.integers(0, 3))
         return nd
-    return {"model": node(draw(st.integers(1, 3)))}
+    return {"model": node(draw(st.integers(1, 3))), "tree": True}
+
+
+LOOKALIKE = [("grp", "grp "), ("grp", " grp"), ("grp", "Grp"), ("grp", "grp\n"), ("a", "a "), ("\u00e5", "a\u030a"), ("N1", "N1\t"), ("1", "01"), ("x", "\uff58")]
+CONFUSABLE_BOUNDS = [((0, 40000), (0, 50000)), ((0, 32767), (0, 32768)), ((-32768, 32767), (-100000, 32767)), ((-32768, 5), (-32769, 5)),
+                     ((0, 3), (1, 2)), ((-1, 2), (-2, 3)), ((0, 2 ** 31 - 1), (0, 2 ** 31)), ((0, 1), (0, 65537)), ((0, 1), (-65536, 65537))]
+
+
+def lookalike_trees(tier):
+    """ENUMERATED well-defined trees whose ids are pairwise distinct but LOOK alike (blanks, case, unicode composition):
+    compound ids, leaf ids, and one of each"""
+    L = lambda i, b=(0, 1): {"k": "leaf", "id": i, "b": list(b)}
+    for i1, i2 in LOOKALIKE:
+        for kind in ("Any", "All", "AtMost"):
+            extra = {"v": 1} if kind == "AtMost" else {}
+            yield {"tree": True, "model": {"k": "All", "id": "top", "c": [dict({"k": kind, "id": i1, "c": [L("p"), L("q")]}, **extra), dict({"k": kind, "id": i2, "c": [L("r"), L("s")]}, **extra)]}}
+            yield {"tree": True, "model": {"k": "All", "id": "top", "c": [dict({"k": kind, "id": i1, "c": [L("p"), dict({"k": kind, "id": i2, "c": [L("r"), L("s")]}, **extra)]}, **extra), L("z")]}}
+            yield {"tree": True, "model": {"k": "All", "id": "top", "c": [dict({"k": kind, "id": "G", "c": [L(i1), L(i2, (0, 3))]}, **extra), L("z")]}}
+            yield {"tree": True, "model": {"k": "All", "id": "top", "c": [dict({"k": kind, "id": i1, "c": [L(i2), L("q")]}, **extra), L("z")]}}
+
+
+def confusable_bounds(tier):
+    """ENUMERATED ill-defined models: ONE id carries two different bounds that are easily taken for one another (equal sums,
+    equal up to the 16- or 32-bit range, boolean vs wide) in two places of the model - siblings, different depths, via a negation"""
+    L = lambda i, b=(0, 1): {"k": "leaf", "id": i, "b": list(b)}
+    for b1, b2 in CONFUSABLE_BOUNDS:
+        for b1_, b2_ in ((b1, b2), (b2, b1)):
+            yield {"model": {"k": "All", "id": "top", "c": [{"k": "Any", "id": "P", "c": [L("t", b1_), L("q")]}, {"k": "Any", "id": "Q", "c": [L("t", b2_), L("r")]}]}}
+            yield {"model": {"k": "All", "id": "top", "c": [L("t", b1_), {"k": "Any", "id": "Q", "c": [{"k": "AtLeast", "v": 2, "s": 1, "id": "R", "c": [L("t", b2_), L("r")]}, L("z")]}]}}
+            yield {"model": {"k": "Any", "id": "top", "c": [{"k": "Not", "c": [{"k": "All", "id": "P", "c": [L("t", b1_), L("q")]}]}, {"k": "AtMost", "v": 1, "id": "Q", "c": [L("t", b2_), L("r")]}]}}
 
 
 def parts(tier):
@@ -370,6 +409,8 @@ def parts(tier):
         Part("same_object", strategy=lambda t: same_object(t), check=check_sound, quick=(1, 300), thorough=(2, 3000)),
         Part("coincidence", strategy=lambda t: coincidence(t), check=check_coincidence, quick=(1, 400), thorough=(2, 4000)),
         Part("tree", strategy=lambda t: tree(t), check=check_complete, quick=(1, 600), thorough=(2, 4000)),
+        Part("lookalike_trees", enumerate_cases=lookalike_trees, check=check_complete, time_quick=100.0),
+        Part("confusable_bounds", enumerate_cases=confusable_bounds, check=check_sound, time_quick=100.0),
         Part("sharing", strategy=lambda t: S.model_spec(depth=3 if t == "quick" else 4, profile="small").map(lambda s: {"model": s}),
              check=check_complete, quick=(2, 600), thorough=(4, 4000)),
     ]
